@@ -5,6 +5,7 @@ from .. import core, repair as RP, oracle as O, util as U
 
 PID = 'C09'
 OPTS_A = [(False, 1000), (True, 1000), (True, 0), (False, 1), (True, 2)]
+ALL2 = [a + b for a in 'ACGT' for b in 'ACGT']
 
 
 def clean_case(r, k, G, acc, start, s, chk_kind, indel, heap):
@@ -71,6 +72,10 @@ def check_graph(r, k, G, n, starts, thin=99):
             for chk in sorted(chks, key=lambda x: (x is not None, x)):
                 for indel in (False, True):
                     any_case(r, k, G, acc, start, s, chk, indel)
+            if len(s) <= 3:
+                for heap in (1, 3):          # a heap limit below the number of candidates, with a check supplied
+                    any_case(r, k, G, acc, start, s, O.vt(s[::-1], 3), True, heap)
+                    any_case(r, k, G, acc, start, s, O.vt(s, 3), True, heap)
         r.states += len(strings)
         r.nontriv += len(strings)
 
@@ -100,6 +105,10 @@ def long_graph(r, k, G, start, n):
                         for chk in (None, O.vt(w, 3)):
                             any_case(r, k, G, acc, start, s2, chk, True)
                         any_case(r, k, G, acc, start, s2, None, False)
+                        any_case(r, k, G, acc, start, s2, O.vt(w, 3), True, 2)
+                        if k >= 3 and gap == 1:      # two broken windows back to back: every short check
+                            for chk in ALL2:
+                                any_case(r, k, G, acc, start, s2, chk, True)
         r.states += 1
         r.nontriv += 1
     r.maxi('long_strand_nt', n)
